@@ -552,3 +552,129 @@ class on_timer(Contract):
 
 
 _install_timer()
+
+
+# ----------------------------------------------------------------------------- start / stop
+class AppM:
+    def __init__(self):
+        self.log = []
+
+    def getattr_(self, it, name, node):
+        if name in ('attach_handler', 'detach_handler'):
+            return _M(lambda it_, *a: self.log.append((name, a)))
+        raise Unsupported(f'app.{name}')
+
+
+def _event_factory(it, args, kwargs, node):
+    e = TimerEvent()
+    it.run.ghost.setdefault('svs.events_created', []).append(e)
+    return e
+
+
+def _install_ss():
+    from pyvc import models
+    models.BUILTIN_MODELS[_aio.Event] = _event_factory
+
+
+_install_ss()
+
+
+@contract
+class to_str_sync_prefix(Contract):
+    """used only inside an error message"""
+    fn = Name.to_str
+    assumed = True
+
+    def use_contract_at(c, it, args, kwargs):
+        return isinstance(args[0], Opaque) and args[0].typ == 'sync_prefix'
+
+    def result(c, cx, name):
+        return '<uri>'
+
+
+@contract
+class on_timer_summary(Contract):
+    """call-site summary inside start(): the timer coroutine (its own contract is above)"""
+    fn = sync.SvsInst.on_timer
+    assumed = True
+
+    def use_contract_at(c, it, args, kwargs):
+        return 'svs.ss' in it.run.ghost
+
+    def result(c, cx, self):
+        cx.run.ghost['svs.ss']['timer_started'] += 1
+        return None
+
+
+@contract
+class svs_start(Contract):
+    fn = sync.SvsInst.start
+    props = ('C18',)
+    doc = ('SvsInst.start: refused with RuntimeError when already running (nothing changes); otherwise the instance runs, gets a fresh '
+           'reset event, records its own sequence number in the local vector when it has produced data, attaches sync_handler with '
+           'the Interest validator at exactly the sync prefix and starts the timer task once')
+    raises = {RuntimeError: lambda cx, self, ndn_app: cx.run.ghost['svs.ss']['was'] is True}
+    exact_raises = True
+
+    def setup(self, cx):
+        run = cx.run
+        inst = mk_inst(cx)
+        inst.d['running'] = run.choose([(False, True), (True, True)], 'running')
+        sk = run.choose([('has produced data', True), ('nothing produced yet', True)], 'self_seq')
+        if sk == 'nothing produced yet':
+            inst.d['self_seq'] = -1
+        inst.d['base_prefix'] = Opaque('sync_prefix', 'sync prefix')
+        inst.d['int_validator'] = Opaque('validator', 'interest validator')
+        run.ghost['svs.ss'] = dict(timer_started=0, local0=inst.d['local_sv'].sym.copy(), sk=sk, was=inst.d['running'])
+        return dict(self=inst, ndn_app=AppM())
+
+    def xpost(c, cx, exc, self, ndn_app):
+        g = cx.run.ghost['svs.ss']
+        return {'refused_start_changes_nothing': ndn_app.log == [] and g['timer_started'] == 0 and self.d['local_sv'].sym.same_as(g['local0'])}
+
+    def post(c, cx, result, self, ndn_app):
+        g = cx.run.ghost['svs.ss']
+        L, L0 = self.d['local_sv'].sym, g['local0']
+        me = zint(self.d['self_node_id'].kid)
+        k = z3.Int('k!st')
+        evs = cx.run.ghost.get('svs.events_created', [])
+        out = {'running_with_a_fresh_reset_event': self.d['running'] is True and len(evs) == 1 and self.d['timer_rst_event'] is evs[0],
+               'handler_attached_at_the_sync_prefix_with_the_validator': len(ndn_app.log) == 1 and ndn_app.log[0][0] == 'attach_handler' and
+               ndn_app.log[0][1][0] is self.d['base_prefix'] and ndn_app.log[0][1][2] is self.d['int_validator'] and self.d['ndn_app'] is ndn_app,
+               'timer_task_started_once': g['timer_started'] == 1}
+        if g['sk'] == 'has produced data':
+            out['own_sequence_number_recorded'] = z3.ForAll([k], z3.If(
+                k == me, z3.And(z3.Select(L.dom, k), z3.Select(L.val, k) == zint(self.d['self_seq'])),
+                z3.And(z3.Select(L.dom, k) == z3.Select(L0.dom, k), z3.Select(L.val, k) == z3.Select(L0.val, k))))
+        else:
+            out['local_vector_untouched'] = L.same_as(L0)
+        return out
+
+
+@contract
+class svs_stop(Contract):
+    fn = sync.SvsInst.stop
+    props = ('C18',)
+    doc = ('SvsInst.stop: a stopped instance is left alone; a running one stops, wakes the timer task so that it ends, detaches its '
+           'handler from exactly the sync prefix and forgets the task')
+    raises = {}
+
+    def setup(self, cx):
+        run = cx.run
+        inst = mk_inst(cx)
+        inst.d['running'] = run.choose([(False, True), (True, True)], 'running')
+        inst.d['base_prefix'] = Opaque('token', 'sync prefix')
+        app_ = AppM()
+        inst.d['ndn_app'] = app_
+        inst.d['timer_task'] = Opaque('task', 'timer task')
+        run.ghost['svs.stop'] = dict(app=app_, was=inst.d['running'])
+        return dict(self=inst)
+
+    def post(c, cx, result, self):
+        g = cx.run.ghost['svs.stop']
+        ev = cx.run.ghost['svs']['event']
+        if g['was'] is False:
+            return {'stopped_instance_left_alone': g['app'].log == [] and ev.sets == 0 and self.d['timer_task'] is not None}
+        return {'stops_and_wakes_the_timer_task': self.d['running'] is False and ev.sets == 1,
+                'handler_detached_from_the_sync_prefix': g['app'].log == [('detach_handler', (self.d['base_prefix'],))],
+                'task_forgotten': self.d['timer_task'] is None}
